@@ -81,7 +81,7 @@ PROPS["C03"] = {
 }
 
 PROPS["C07"] = {
-    "lean": ["WsVerif.Props.C07", "WsVerif.Props.C07Stream", "WsVerif.Props.C07Install", "WsVerif.Props.C07End", "WsVerif.Props.C04DiscardText", "WsVerif.Bridge.C07", "WsVerif.Bridge.C04"],
+    "lean": ["WsVerif.Props.C07", "WsVerif.Props.C07Stream", "WsVerif.Props.C07Install", "WsVerif.Props.C07End", "WsVerif.Props.C07ReadMessage", "WsVerif.Props.C04DiscardText", "WsVerif.Bridge.C07", "WsVerif.Bridge.C04"],
     "rule": "Reader wiring: 16 (quick) / 316 (thorough) text payloads (valid, truncated, overlong, surrogate, > U+10FFFF) under EVERY split into "
             "three fragments, with and without ping/pong (non-UTF-8 payloads) between the fragments, followed on the same reader by a binary "
             "message holding invalid UTF-8 and another text message; chunkings {whole,1,2,5}; through ReadMessage, ReadData, Reader+ReadAll "
@@ -101,8 +101,10 @@ PROPS["C07"] = {
                   "frames between the fragments, under ANY transport chunking and ANY caller buffer sizes, ends the message with io.EOF having delivered exactly the "
                   "payload iff the concatenated payload is well-formed (Table 3-7); otherwise the Reads hand out a prefix and then ErrInvalidUTF8 (at the first byte "
                   "leaving the table, or at the end of a message that stops inside a character), never io.EOF - proved by simulating the checking reader with the "
-                  "non-checking one (Proofs/ReaderText: read_sim, reads_sim) over C04.message_delivered. PARTIAL: ReadMessage / ReadData (OnIntermediate set) and "
-                  "Discard on text messages are covered by correspondence and the oracle, not by the stream theorem (Discard: C04.message_skipped_any). "
+                  "non-checking one (Proofs/ReaderText: read_sim, reads_sim) over C04.message_delivered. ReadMessage on an unfragmented text message (Props/C07ReadMessage.readMessage_single_text): [(text, payload)] with no error iff the payload is "
+                  "well-formed, ErrInvalidUTF8 otherwise, any chunking - io.ReadFull never drops the verdict because the checking reader reports fewer bytes than "
+                  "asked for whenever it reports ErrInvalidUTF8 (count bound in SimOut). PARTIAL: ReadMessage on fragmented text / ReadData (OnIntermediate set) "
+                  "are covered by correspondence and the oracle, not by a stream theorem (Discard: C04.message_skipped_any). "
                   "The unchanged tree violated the property (F20: a text message cut inside a character returned as complete by ReadMessage when the source "
                   "failed along with the last bytes) - found by the oracle once the Fd transport kind entered the single-frame text family, repaired by fix "
                   "commit 6a7a1a5; C07End.end_of_invalid_text_is_reported states the repaired behaviour for every Read.",
